@@ -217,12 +217,12 @@ theorem tree_render_deterministic (n : TNode) (inp out : List Tree) {d₁ d₂ :
     (hnd : (d₁.map fun c => c.n.name).Nodup) : write (.mk n inp out d₁) = write (.mk n inp out d₂) := by
   simp only [write]
   rw [Lemmas.Cli.writeKids_eq_map d₁, Lemmas.Cli.writeKids_eq_map d₂]
-  rw [Lemmas.Cli.sortBy_keyLt_perm (h.map _) (by simpa [List.map_map] using hnd)]
+  rw [Lemmas.Cli.sortBy_keyLt_perm (h.map _) (by rw [List.map_map]; exact hnd)]
 
 open Goyang.Model.Cli in
 /-- `--format types` (types.go `doTypes`): the set of types is rendered, the renderings are
 sorted, so the output does not depend on the order in which the map `Types` is walked. -/
-theorem types_render_deterministic {τ : Type} (printType : τ → Indent.Bytes) {t₁ t₂ : List τ} (h : t₁.Perm t₂) :
+theorem types_render_deterministic {τ : Type} (printType : τ → Model.Indent.Bytes) {t₁ t₂ : List τ} (h : t₁.Perm t₂) :
     doTypes printType t₁ = doTypes printType t₂ := by
   simp only [doTypes]
   rw [Lemmas.Cli.sortBy_bytes_perm (h.map _)]
@@ -230,7 +230,7 @@ theorem types_render_deterministic {τ : Type} (printType : τ → Indent.Bytes)
 open Goyang.Model.Cli in
 /-- The end of `main`: which entries are printed, and in which order, depends on `ms.Modules`
 only as a set of (key, module name) pairs and on what the bare names are bound to (D51). -/
-theorem select_deterministic {m₁ m₂ : List (Indent.Bytes × Indent.Bytes × Tree)} (bound : Indent.Bytes → Option Tree)
+theorem select_deterministic {m₁ m₂ : List (Model.Indent.Bytes × Model.Indent.Bytes × Tree)} (bound : Model.Indent.Bytes → Option Tree)
     (h : ∀ x, x ∈ m₁.map (·.2.1) ↔ x ∈ m₂.map (·.2.1)) : selectEntries m₁ bound = selectEntries m₂ bound := by
   simp only [selectEntries]
   rw [Lemmas.Cli.sortBy_eraseDups_ext h]
@@ -240,9 +240,9 @@ open Goyang.Model.Cli
 private def lf (k : String) : Tree := .mk { name := str k, shown := str k, hasDir := false, typeName := some (str "string") } [] [] []
 private def top : TNode := { name := str "m", shown := str "m" }
 example : write (.mk top [] [] [lf "z", lf "a", lf "k"]) = write (.mk top [] [] [lf "k", lf "z", lf "a"]) :=
-  tree_render_deterministic top [] [] (by decide) (by decide)
-example : write (.mk top [] [] [lf "z", lf "a"]) = str "rw: m {\n  rw: string a\n  rw: string z\n}\n" := by decide
-example : doTypes (fun (s : String) => str s) ["b;\n", "a;\n"] = str "a;\nb;\n" := by decide
+  tree_render_deterministic top [] [] (List.perm_append_comm (l₁ := [lf "z", lf "a"]) (l₂ := [lf "k"])) (by decide +kernel)
+example : write (.mk top [] [] [lf "z", lf "a"]) = str "rw: m {\n  rw: string a\n  rw: string z\n}\n" := by decide +kernel
+example : doTypes (fun (s : String) => str s) ["b;\n", "a;\n"] = str "a;\nb;\n" := by decide +kernel
 end
 
 end Goyang.Props.C05
